@@ -13,6 +13,9 @@ TRUSTED_BASE = [
     'CPython str slicing/index/comparison are modelled by Coq string functions over UTF-8 bytes '
     '(code-point order == byte order); hash((prefix,id)) is an abstract function H of the two strings',
     'numpy.unique and bisect.bisect_left are modelled (insertion sort with de-duplication; the bisect loop with fuel)',
+    'TRANSLATOR (harness/translate_termid.py, fail-closed Python-ast -> Gallina): from_curie, value, __eq__, __lt__, __hash__ / _calculate_hash and the accessors of both concrete '
+    'classes are translated from src/hpotk/model/_term_id.py on every run and proved equal to TermId.Model (work/C04/TermIdGen.v); trusted: its reading of str slicing, + == < on str, '
+    'str.index, isinstance(other, TermId) and hash((a, b))',
 ]
 ASSUMPTIONS = ['DefaultTermId/SimpleTermId are constructed with 0 <= idx (negative idx uses Python wrap-around slicing, not modelled)',
                'strings contain no lone surrogates and no NUL']
@@ -164,6 +167,9 @@ def size_of(m):
 
 
 def run(chk):
+    import translate_termid
+    from common import REPO
+    broken_tie = chk.translation_tie(translate_termid.translate, REPO / 'src' / 'hpotk' / 'model' / '_term_id.py', 'TermIdGen.v')
     payload = gen(chk)
     cases, meta, failing = evaluate(chk, payload)
     for m in meta:
@@ -181,7 +187,7 @@ def run(chk):
                 'constructors + random unicode; pairs: all ordered pairs of parseable strings of length <= 3 '
                 '(sampled at 4 in thorough) mixing from_curie/DefaultTermId/SimpleTermId + equal-by-construction '
                 'pairs + random pairs with near misses; sort: random lists with repeats and both delimiters with '
-                'bisect probes.  non-trivial = contains a delimiter (parse) / any pair / any list; distinct by digest of the input'
+                'bisect probes; the methods of TermId / DefaultTermId / SimpleTermId are also TRANSLATED from the source text and proved equal to the model.  non-trivial = contains a delimiter (parse) / any pair / any list; distinct by digest of the input'
                 % (6 if chk.tier == 'thorough' else 5))
     chk.exhaustive = True
     if failing:
@@ -196,6 +202,13 @@ def run(chk):
                              'failing_cases_of_this_kind': len(idxs),
                              'explanation': 'the implementation observation differs from the value the proved model fixes'},
                 what=f'TermId {k} observation differs from the model on {json.dumps(meta[i]["input"])}')
+    finish_tie(chk, broken_tie)
+
+
+def finish_tie(chk, broken_tie):
+    if broken_tie:
+        chk.report_broken_tie('C04:translation', broken_tie, 'Lemmas from_curie_src_ok / accessors_src_ok / value_src_ok / eq_src_ok / lt_src_ok / hash_src_ok (work/C04/TermIdGen.v)',
+                              'C04_parse_ok_iff / C04_eq_iff / C04_eq_hash / C04_lt_strict_total')
 
 
 def replay(chk, path):
